@@ -163,6 +163,7 @@ def jobs(tier):
         mk('C07', 'fw/target_loop_died', S.fw_target_loop_died(), witnesses=W),
         mk('C07', 'fw/evict/BADC', S.fw_evict(('B', 'A', 'D', 'C')), witnesses=W),
         mk('C07', 'fw/saturated_double', S.fw_saturated_double(), witnesses=W),
+        mk('C07', 'fw/after_refused', S.fw_after_refused(), witnesses=W),
     ]
     if tier == 'thorough':
         out += [
